@@ -319,7 +319,9 @@ def run(tier, t0):
         # the copy is the element of output["threads"] at the very index that is also reported as threads_index:
         # clone(output["threads"].as_array()[requesting_thread]) - not a search by thread id (ids can repeat)
         WANT_T = '(<serde_json::Value as std::clone::Clone>::clone (<std::vec::Vec<T, A> as std::ops::Index<I>>::index (std::option::Option::unwrap (serde_json::Value::as_array (std::option::Option::unwrap (serde_json::Value::get_mut output "threads")))) (Some.0 self.requesting_thread)))'
-        ok = ('requesting_thread' in ins['threads_index'][1] and 'json_registers' in ins['registers'][1] and ins['crashing_thread'][1] == 'thread'
+        # the registers added to the copy are those of the first frame of the very thread that was copied
+        regsrc = ins['registers'][1]
+        ok = ('requesting_thread' in ins['threads_index'][1] and 'json_registers' in regsrc and re.search(r'index\S* self\.threads \(Some\.0 self\.requesting_thread\)', regsrc) is not None and ins['crashing_thread'][1] == 'thread'
               and tdef in (WANT_T, WANT_T.replace('serde_json::Value::get_mut output', 'serde_json::Value::get output')))
     # ... and nothing else touches the copy: between the clone and the insertion under "crashing_thread" no call shortens,
     # reorders or replaces parts of it, and the only keys inserted are the two documented additions
